@@ -212,7 +212,7 @@ def c13(ctx):
                 p = os.path.join(ctx.scratch, cfg)
                 _txt = open(p).read().replace('SpecialKinds = {"e", "qd"}', 'SpecialKinds = {"e", "q", "qd", "qq"}')
                 open(p, "w").write(_txt)
-        r = ctx.tlc_expect_ok("MC_Lines.tla", cfg, timeout=7000, xmx="30g", tag="lines_" + mode)
+        r = ctx.tlc_expect_ok("MC_Lines.tla", cfg, timeout=7000, xmx="24g", tag="lines_" + mode)
         rp = os.path.join(ctx.scratch, "lines_%s.json" % mode)
         ctx.vdrive(["linevec", "-in", r["out"], "-out", rp])
         os.remove(r["out"])
